@@ -85,4 +85,10 @@ theorem code_submits_only_unsubmitted (s : State) (o : Obj)
 example : steps false ["Ready", "Ready", "Running", "Ready"] = (["Write", "Write", "runChunk"], true) ∧
     Gen.tr_ChunkStep "Running" false = ([], false) := by decide
 
+/-- FAIL CLOSED (second audit pass, X2/X3): the tie theorems of this file are about the
+definition(s) TRANSLATED FROM THE TREE UNDER TEST, not about the committed default the
+extractor falls back to when the source leaves the translated subset – in that
+case this obligation breaks and `./check` reports it (besides the note). -/
+theorem translated_from_tree_under_test : Gen.tr_ChunkStep_extracted = true := by decide
+
 end Props.C03
